@@ -750,7 +750,7 @@ func runWHChild(c *Ctx, rule string) {
 		var names []string
 		for f := range settable {
 			names = append(names, f.Name())
-			want := "load(recv." + f.Name() + ")"
+			want := "load(recv." + roleOf(f) + ")"
 			if got[f] != want {
 				if got[f] == "" {
 					bad = append(bad, f.Name()+" is not passed on")
@@ -859,7 +859,7 @@ func runWHGroups(c *Ctx, rule string) {
 							for _, b := range s2.Parent().Blocks {
 								for _, ins := range b.Instrs {
 									if s3, ok := ins.(*ssa.Store); ok {
-										if f3 := fieldOf(s3.Addr); f3 != nil && f3.Name() == "rowGroups" {
+										if f3 := fieldOf(s3.Addr); f3 != nil && roleOf(f3) == "rowGroups" {
 											opens = true
 										}
 									}
